@@ -132,6 +132,11 @@ func (b *trzszBuffer) readLine(mayHasJunk bool, timeout <-chan time.Time) ([]byt
 				b.readBuf.Truncate(b.readBuf.Len() - 1)
 				continue
 			}
+			if b.readBuf.Len() == 0 {
+				// an empty line is never a protocol line: e.g. the line feed that ended the trigger line (or
+				// a '!'-framed line) when the transport delivers it in a read of its own
+				continue
+			}
 			return b.readBuf.Bytes(), nil
 		}
 	}
